@@ -49,6 +49,35 @@ def uncovered2 (arms : List Arm2) : List (NumKind × NumKind) :=
 def uncovered1 (arms : List Arm1) : List NumKind :=
   numKinds.filter (fun a => !okBody (firstArm1 arms a))
 
+/-! ### exemptions: kinds that a dispatch cannot be handed, with the reason (hand-reviewed, like the site table) -/
+
+/-- (table, kind, why the kind cannot reach this `match`) -/
+def armExemptions1 : List (String × NumKind × String) := [
+  ("imaginary_is_negative", .Complex,
+    "the scrutinee is the imaginary component of a SteelComplex: make-rectangular / make-polar check both components with ensure_arg_is_real, the arithmetic builds components with real operations (internal invariant; the sweep applies make-rectangular and make-polar to complex arguments on every run)"),
+  ("imaginary_is_finite", .Complex, "as imaginary_is_negative")
+]
+
+def armExemptions2 : List (String × NumKind × NumKind × String) := []
+
+def exempt1 (t : String) (k : NumKind) : Bool := armExemptions1.any (fun e => e.1 == t && e.2.1 == k)
+def exempt2 (t : String) (a b : NumKind) : Bool := armExemptions2.any (fun e => e.1 == t && e.2.1 == a && e.2.2.1 == b)
+
+/-- every numeric kind reaches a non-panicking arm, except the exempted ones -/
+def covers1x (t : String × List Arm1) : Bool := (uncovered1 t.2).all (fun k => exempt1 t.1 k)
+def covers2x (t : String × List Arm2) : Bool := (uncovered2 t.2).all (fun p => exempt2 t.1 p.1 p.2)
+
+/-- an exemption that is not needed (the table covers the kind, or the table is gone) is stale: the obligation below
+fails, so that the review list cannot silently outlive the code it was written for -/
+def exemptionsNeeded : Bool :=
+  armExemptions1.all (fun e => unaryTables.any (fun t => t.1 == e.1 && (uncovered1 t.2).contains e.2.1)) &&
+  armExemptions2.all (fun e => binaryTables.any (fun t => t.1 == e.1 && (uncovered2 t.2).contains (e.2.1, e.2.2.1)))
+
+/-- the tables a function of `entryReach` reaches are all present and covered -/
+def reachCovered (names : List String) : Bool :=
+  names.all (fun n =>
+    (binaryTables.any (fun t => t.1 == n && covers2x t)) || (unaryTables.any (fun t => t.1 == n && covers1x t)))
+
 /-! ### the site table -/
 
 def reviewedIds : List Nat := reviewed.map (·.id)
